@@ -35,3 +35,105 @@ Theorem C17_wt_rejects :
   wt_program (prog_of [St (SExpr (Ex ETrue m0 TBool)) m0]) = false.
 Proof. vm_compute. repeat split; reflexivity. Qed.
 Print Assumptions C17_wt_rejects.
+
+(* ------------------------------------------------------------------------------------
+   General rejection lemmas (Lang/WtRules.v): a tree that violates a rule at its root is
+   rejected for every program, context and fuel; and what acceptance guarantees
+   (Lang/WtSound.v): an accepted program never reaches a typing inconsistency at run time. *)
+From GV Require Import Lang.Sem Lang.ValTy Lang.WtSound Lang.WtRules.
+
+Theorem C17_rejects_unbound : forall fw P g x m t,
+  tlookup g x = None -> wt_expr fw P g (Ex (EId x) m t) = false.
+Proof. exact wt_rejects_unbound. Qed.
+Print Assumptions C17_rejects_unbound.
+
+Theorem C17_rejects_operands : forall fw P g o x y m t,
+  wtop o t (e_ty x) (e_ty y) = false -> wt_expr fw P g (Ex (EOp o x y) m t) = false.
+Proof. exact wt_rejects_operands. Qed.
+Print Assumptions C17_rejects_operands.
+
+Theorem C17_rejects_arith_mismatch : forall fw P g o x y m t,
+  In o [OAdd; OSub; OMul; ODiv; OMod] ->
+  ty_eqb (e_ty x) t = false \/ ty_eqb (e_ty y) t = false \/ is_int t = false ->
+  wt_expr fw P g (Ex (EOp o x y) m t) = false.
+Proof. exact wt_rejects_arith_mismatch. Qed.
+Print Assumptions C17_rejects_arith_mismatch.
+
+Theorem C17_rejects_compare_mismatch : forall fw P g o x y m t,
+  In o [OEq; ONe; OLt; OGt] -> ty_eqb (e_ty x) (e_ty y) = false ->
+  wt_expr fw P g (Ex (EOp o x y) m t) = false.
+Proof. exact wt_rejects_compare_mismatch. Qed.
+Print Assumptions C17_rejects_compare_mismatch.
+
+Theorem C17_rejects_nonbool_cond : forall fw P g c a b m t,
+  is_bool (e_ty c) = false -> wt_expr fw P g (Ex (EIf c a b) m t) = false.
+Proof. exact wt_rejects_nonbool_cond. Qed.
+Print Assumptions C17_rejects_nonbool_cond.
+
+Theorem C17_rejects_branch_mismatch : forall fw P g c a b m t,
+  ty_eqb (e_ty a) t = false \/ ty_eqb (e_ty b) t = false ->
+  wt_expr fw P g (Ex (EIf c a b) m t) = false.
+Proof. exact wt_rejects_branch_mismatch. Qed.
+Print Assumptions C17_rejects_branch_mismatch.
+
+Theorem C17_rejects_arm_mismatch : forall fw P g s arms m t arm,
+  In arm arms ->
+  ty_eqb (e_ty (snd arm)) t = false \/ ty_eqb (p_ty (fst arm)) (e_ty s) = false ->
+  wt_expr fw P g (Ex (EMatch s arms) m t) = false.
+Proof. exact wt_rejects_arm_mismatch. Qed.
+Print Assumptions C17_rejects_arm_mismatch.
+
+Theorem C17_rejects_immutable_assign : forall fw P g x accs e m,
+  (forall tx, tlookup g x <> Some (tx, true)) ->
+  wt_stmt fw P g (St (SAssign x accs e) m) = None.
+Proof. exact wt_rejects_immutable_assign. Qed.
+Print Assumptions C17_rejects_immutable_assign.
+
+Theorem C17_rejects_arity : forall fw P g fn args m t d,
+  find_fn P fn = Some d -> length args <> length (fn_params d) ->
+  wt_expr fw P g (Ex (ECall fn args) m t) = false.
+Proof. exact wt_rejects_arity. Qed.
+Print Assumptions C17_rejects_arity.
+
+Theorem C17_rejects_unknown_fn : forall fw P g fn args m t,
+  find_fn P fn = None -> wt_expr fw P g (Ex (ECall fn args) m t) = false.
+Proof. exact wt_rejects_unknown_fn. Qed.
+Print Assumptions C17_rejects_unknown_fn.
+
+(* rejection propagates: statement -> enclosing block -> function -> program *)
+Theorem C17_block_rejects : forall fw P s pre post,
+  (forall f g, wt_stmt f P g s = None) -> forall g, wt_block fw P g (pre ++ s :: post) = None.
+Proof. exact wt_block_rejects. Qed.
+Print Assumptions C17_block_rejects.
+
+Theorem C17_program_rejects_fn : forall P d,
+  In d (p_fns P) -> wt_fn P (consts_tenv P) d = false -> wt_program P = false.
+Proof. exact wt_program_rejects_fn. Qed.
+Print Assumptions C17_program_rejects_fn.
+
+(* what acceptance excludes: evaluation of an accepted expression in a typed environment
+   never reaches "unbound identifier", "operand of the wrong shape", "wrong arity", ...
+   (every Stuck code of Sem.v except the pattern-match / join codes [stuck_allowed]) *)
+Theorem C17_accepted_never_inconsistent : forall P n fw g e en c,
+  wt_program P = true -> wt_expr fw P g e = true -> genv P g -> env_ok P (scopes en) g ->
+  eval n P en e = Stuck c -> In c stuck_allowed.
+Proof.
+  intros P n fw g e en c Hwt Hw Hg He Hs.
+  pose proof (wt_sound_expr P false Hwt (fun H => False_ind _ (Bool.diff_false_true H)) n fw g e en Hw
+                (fun H => False_ind _ (Bool.diff_false_true H)) Hg He) as H.
+  rewrite Hs in H. exact (proj1 H).
+Qed.
+Print Assumptions C17_accepted_never_inconsistent.
+
+(* the unsound acceptances of the previous re-checker are now rejected (witnesses found
+   while proving soundness: duplicate parameter names, a constant initialised by a call,
+   a join loop over non-arrays, duplicate constant names) *)
+Theorem C17_wt_rejects_former_unsound :
+  wt_program (mkProgram [] [] [mkFn 9 [(0, u8); (0, TBool)] u8 [ret0]] [] 9) = false /\
+  wt_program (mkProgram [] [] [mkFn 9 [(0, u8)] u8 [ret0]; mkFn 8 [(0, u8)] u8 [St (SExpr (Ex (EId 5) m0 u8)) m0]]
+                        [(4, Ex (ECall 8 [lit8 1]) m0 u8); (5, lit8 2)] 9) = false /\
+  wt_program (prog_of [St (SJoinLoop (Pat (PId 1) m0 TBool) u8 (Ex (EId 0) m0 u8) (Ex (EId 0) m0 u8) []) m0; ret0]) = false /\
+  wt_program (mkProgram [] [] [mkFn 9 [(0, u8)] u8 [St (SExpr (Ex (EId 5) m0 u8)) m0]]
+                        [(5, lit8 2); (5, Ex ETrue m0 TBool)] 9) = false.
+Proof. vm_compute. repeat split; reflexivity. Qed.
+Print Assumptions C17_wt_rejects_former_unsound.
